@@ -1,4 +1,4 @@
-"""Translator for explicit-stack loops over Python lists (wave 5): `BinaryCLT.to_pc`, `BinaryCLT.get_scopes`.
+"""Translator for explicit-stack loops over Python lists (wave 5): `BinaryCLT.to_pc`, `BinaryCLT.get_scopes`, `build_xpc`.
 
 A loop `while <stack>: <body>` whose state is a fixed tuple of local variables (Python lists of objects, and one variable
 holding the object visited last, `None` at the start) is rendered as ONE Lean function from the state before an iteration to
@@ -23,16 +23,30 @@ Python list idioms and their rendering (lists keep the orientation of the Python
     d[k]                (d' k) for the tables in `tables`; a further [j] with a constant j appends the argument j
     e in ys             (isIn e ys): identity membership of an optional object in a list of objects (parameter)
     not / or / and      ! / || / &&
+Idioms added for `build_xpc` (each one only when its table is given; the two earlier fragments do not use them):
+    o.a                 (a' o) for the attributes in `attrs` (plain reads only)
+    [f(x) for x in xs]  ((xs).map (fun x1 => …))     one generator, no condition; the bound variable gets a canonical name `x<depth>`
+    a / b               (div a b) for INTEGER terms a, b (`len(…)` or a literal): an uninterpreted parameter, no arithmetic is assumed
+    a == b              (a == b) for INTEGER terms a, b
+    isinstance(c, K)    (isK c) for the classes in `classes`: one predicate parameter per class
+    G(a, k, b)          (g' k) for the functions in `opaque`: every argument marked as a constant must be exactly the named loop
+                        constant (a parameter of the enclosing function that is assigned nowhere), the others are translated
+    for c in xs: <body> acc := acc ++ (xs).flatMap (fun x1 => <what the body adds for x1>) when `acc` is bound to `[]` at that point,
+                        is not a state variable, the body reads `acc` only as the receiver of `append` / `extend`, changes no
+                        other variable and the loop has no `else`, `break` or `continue`
 Anything else raises Untranslatable — never a default reading."""
 import ast
 
 
 class LP:
-    def __init__(self, T, what, state, methods, ctors, tables, member='isIn'):
+    def __init__(self, T, what, state, methods, ctors, tables, member='isIn', attrs=None, classes=None, opaque=None, div=None):
         self.T, self.U, self.what = T, T.Untranslatable, what
         self.state = list(state)          # [(python name, lean name)]
         self.methods, self.ctors, self.tables, self.member = methods, ctors, tables, member
+        self.attrs, self.classes, self.opaque, self.div = attrs or {}, classes or {}, opaque or {}, div
+        self.ext = bool(attrs or classes or opaque or div)      # the idioms added for `build_xpc` are enabled
         self.aliases = set()
+        self.depth = 0                    # nesting depth of bound variables (comprehensions, `for` loops): canonical names x1, x2, …
 
     def fail(self, msg, node=None):
         raise self.U(f'{self.what}: {msg}' + (f' [{ast.unparse(node)[:80]}]' if node is not None else ''))
@@ -51,6 +65,25 @@ class LP:
             return self.term(self.ex(e.operand, env))
         self.fail('slice bound is not of the form -k', e)
 
+    def int_term(self, e, env):
+        """Lean term of an INTEGER expression: `len(…)` or a non-negative integer literal (nothing else is read as a number)"""
+        if isinstance(e, ast.Call) and isinstance(e.func, ast.Name) and e.func.id == 'len' and len(e.args) == 1 and not e.keywords:
+            return self.term(self.ex(e, env))
+        if isinstance(e, ast.Constant) and isinstance(e.value, int) and not isinstance(e.value, bool) and e.value >= 0:
+            return str(e.value)
+        self.fail('not an integer term (`len(…)` or a literal)', e)
+
+    def bind(self, target, env):
+        """a fresh canonical name for the variable a comprehension / `for` loop binds (renaming it in the source changes nothing)"""
+        if not isinstance(target, ast.Name):
+            self.fail('bound variable is not a name', target)
+        if target.id in env or target.id in dict(self.state):
+            self.fail(f'bound variable {target.id} shadows a variable of the loop', target)
+        self.depth += 1
+        env2 = dict(env)
+        env2[target.id] = ('t', f'x{self.depth}')
+        return f'x{self.depth}', env2
+
     def ex(self, e, env):
         if isinstance(e, ast.Name):
             if e.id in env:
@@ -68,6 +101,12 @@ class LP:
             return ('lit', [self.ex(x, env) for x in e.elts])
         if isinstance(e, ast.BinOp) and isinstance(e.op, ast.Add):
             return ('t', f'({self.term(self.ex(e.left, env))} ++ {self.term(self.ex(e.right, env))})')
+        if isinstance(e, ast.BinOp) and isinstance(e.op, ast.Div) and self.div:
+            return ('t', f'({self.div} {self.int_term(e.left, env)} {self.int_term(e.right, env)})')
+        if isinstance(e, ast.Attribute) and e.attr in self.attrs and isinstance(e.ctx, ast.Load):
+            return ('t', f'({self.attrs[e.attr]} {self.term(self.ex(e.value, env))})')
+        if isinstance(e, ast.Compare) and len(e.ops) == 1 and isinstance(e.ops[0], ast.Eq) and self.ext:
+            return ('t', f'({self.int_term(e.left, env)} == {self.int_term(e.comparators[0], env)})')
         if isinstance(e, ast.UnaryOp) and isinstance(e.op, ast.Not):
             return ('t', f'(!{self.term(self.ex(e.operand, env))})')
         if isinstance(e, ast.BoolOp):
@@ -82,6 +121,13 @@ class LP:
                     and isinstance(g[1].target, ast.Name) and isinstance(g[1].iter, ast.Name) and g[1].iter.id == g[0].target.id
                     and e.elt.id == g[1].target.id):
                 return ('t', f'({self.term(self.ex(g[0].iter, env))}).flatten')
+            if len(g) == 1 and not g[0].ifs and not g[0].is_async and self.ext:
+                # [f(x) for x in xs]
+                xs = self.term(self.ex(g[0].iter, env))
+                x, env2 = self.bind(g[0].target, env)
+                body = self.term(self.ex(e.elt, env2))
+                self.depth -= 1
+                return ('t', f'(({xs}).map (fun {x} => {body}))')
             self.fail('list comprehension', e)
         if isinstance(e, ast.Subscript):
             sl = e.slice
@@ -116,6 +162,20 @@ class LP:
                 return ('t', f'({self.term(self.ex(e.args[0], env))}).length')
             if isinstance(f, ast.Attribute) and f.attr in self.methods and not e.args and not e.keywords:
                 return ('t', f'({self.methods[f.attr]} {self.term(self.ex(f.value, env))})')
+            if (isinstance(f, ast.Name) and f.id == 'isinstance' and len(e.args) == 2 and not e.keywords
+                    and isinstance(e.args[1], ast.Name) and e.args[1].id in self.classes and e.args[1].id not in env):
+                return ('t', f'({self.classes[e.args[1].id]} {self.term(self.ex(e.args[0], env))})')
+            if isinstance(f, ast.Name) and f.id in self.opaque and f.id not in env:
+                lean, spec = self.opaque[f.id]
+                if len(e.args) != len(spec) or e.keywords:
+                    self.fail(f'{f.id} is not called with {len(spec)} positional arguments', e)
+                args = []
+                for a, c in zip(e.args, spec):
+                    if c is None:
+                        args.append(self.term(self.ex(a, env)))
+                    elif not (isinstance(a, ast.Name) and a.id == c and a.id not in env):
+                        self.fail(f'argument of {f.id} is not the loop constant {c}', a)
+                return ('t', '(' + ' '.join([lean] + args) + ')')
             if isinstance(f, ast.Name) and f.id in self.ctors:
                 lean, pos, kws = self.ctors[f.id]
                 if len(e.args) != len(pos) or sorted(k.arg for k in e.keywords) != sorted(kws):
@@ -148,7 +208,7 @@ class LP:
                 env[s.targets[0].id] = ('t', f'({self.term(env[xs])}).getLast?')
                 env[xs] = ('t', f'({self.term(env[xs])}).dropLast')
                 return env
-            if isinstance(v, ast.Name) and v.id in env and env[v.id][0] == 't':
+            if isinstance(v, ast.Name) and v.id in env and env[v.id][0] in ('t', 'lit'):
                 # `a = b` makes two names for ONE Python list: a later in-place change of either would change both
                 self.aliases.add(frozenset((s.targets[0].id, v.id)))
             env[s.targets[0].id] = self.ex(v, env)
@@ -179,6 +239,8 @@ class LP:
                 env[xs] = ('t', f'({self.term(env[xs])} ++ {self.term(a)})')
                 return env
             self.fail('method statement', s)
+        if isinstance(s, ast.For) and self.ext:
+            return self.for_acc(s, env)
         if isinstance(s, ast.If):
             c = self.term(self.ex(s.test, env))
             a = self.block(s.body, env)
@@ -195,6 +257,41 @@ class LP:
         if isinstance(s, ast.Expr) and isinstance(s.value, ast.Constant):
             return env
         self.fail('statement', s)
+
+    def for_acc(self, s, env):
+        """`for c in xs:` whose body only appends to / extends ONE accumulator bound to `[]` -> acc ++ xs.flatMap (fun c => …)"""
+        if s.orelse or getattr(s, 'type_comment', None):
+            self.fail('for … else', s)
+        for n in ast.walk(s):
+            if isinstance(n, (ast.Break, ast.Continue, ast.Return, ast.While)) or (isinstance(n, ast.For) and n is not s):
+                self.fail('control flow inside a `for` loop', s)
+        recv = set()                 # receivers of append / extend statements in the body
+        for n in ast.walk(s):
+            if (isinstance(n, ast.Expr) and isinstance(n.value, ast.Call) and isinstance(n.value.func, ast.Attribute)
+                    and n.value.func.attr in ('append', 'extend') and isinstance(n.value.func.value, ast.Name)):
+                recv.add(n.value.func.value.id)
+        if len(recv) != 1:
+            self.fail(f'the `for` loop appends to {sorted(recv)}, expected exactly one accumulator', s)
+        acc = recv.pop()
+        if acc in dict(self.state) or env.get(acc) != ('lit', []):
+            self.fail(f'the accumulator {acc} of the `for` loop is not a local list bound to []', s)
+        # the body may mention `acc` only as the receiver of those statements
+        uses = sum(1 for n in ast.walk(s) if isinstance(n, ast.Name) and n.id == acc)
+        stmts = sum(1 for n in ast.walk(s) if isinstance(n, ast.Expr) and isinstance(n.value, ast.Call)
+                    and isinstance(n.value.func, ast.Attribute) and n.value.func.attr in ('append', 'extend')
+                    and isinstance(n.value.func.value, ast.Name) and n.value.func.value.id == acc)
+        if uses != stmts:
+            self.fail(f'the body of the `for` loop reads its accumulator {acc}', s)
+        xs = self.term(self.ex(s.iter, env))
+        x, env2 = self.bind(s.target, env)
+        out = self.block(s.body, env2)
+        self.depth -= 1
+        for k, v in env.items():
+            if k != acc and out.get(k) != v:
+                self.fail(f'the body of the `for` loop changes {k}', s)
+        env = dict(env)
+        env[acc] = ('t', f'([] ++ ({xs}).flatMap (fun {x} => {self.term(out[acc])}))')
+        return env
 
     def loop_step(self, loop, top):
         """`loop`: the ast.While; `top`: lean name bound to `<cond>[-1]`.  Returns the Lean body (a term over the lean state names)."""
